@@ -130,8 +130,6 @@ from .astutil import (
     re_alnumdot,
     re_alnumdot_alnum,
     re_identifier,
-    re_identifier_dotted,
-    re_identifier_alias,
     bistr,
     is_valid_target,
     is_valid_del_target,
@@ -2211,14 +2209,30 @@ def _one_info_identifier_required(
 
 _onestatic_identifier_required = onestatic(_one_info_identifier_required, _restrict_default, code_as=code_as_identifier)
 
+def _loc_identifier_dotted(lines: list[str], ln: int, col: int, end_ln: int, end_col: int, ident: str) -> fstloc:
+    """Location of existing dotted identifier `ident` which is the first thing that starts at or after (`ln`, `col`).
+    The parts and the dots may be separated by whitespace and line continuations so this may span multiple lines."""
+
+    ln, col, src = next_find_re(lines, ln, col, end_ln, end_col, re_identifier, lcont=None)  # must be there
+    start_ln = ln
+    start_col = col
+    col += len(src)
+
+    for _ in range(ident.count('.')):
+        ln, col, src = next_find_re(lines, ln, col, end_ln, end_col, re_identifier, lcont=None)  # must be there, skips the '.'
+        col += len(src)
+
+    return fstloc(start_ln, start_col, ln, col)
+
 def _one_info_identifier_alias(
     self: fst.FST, static: onestatic, idx: int | None, field: str
 ) -> oneinfo:  # required, cannot delete or put new
     ln, col, end_ln, end_col = self.loc
-    end_col = re_identifier_alias.match(self.root._lines[ln], col,
-                                        end_col if end_ln == ln else 0x7fffffffffffffff).end()  # must be there
 
-    return oneinfo('', None, fstloc(ln, col, ln, end_col))
+    if (name := self.a.name) == '*':
+        return oneinfo('', None, fstloc(ln, col, ln, col + 1))
+
+    return oneinfo('', None, _loc_identifier_dotted(self.root._lines, ln, col, end_ln, end_col, name))
 
 _onestatic_alias_name_all    = onestatic(_one_info_identifier_alias, _restrict_default, code_as=code_as_identifier_alias)
 _onestatic_alias_name_dotted = onestatic(_one_info_identifier_alias, _restrict_default, code_as=code_as_identifier_dotted)
@@ -2283,10 +2297,7 @@ def _one_info_ImportFrom_module(self: fst.FST, static: onestatic, idx: int | Non
         self_ln, self_col, _ = next_frag(lines, self_ln, self_col + 4, end_ln, end_col)  # skip 'lazy' and set start to 'from'
 
     if not ast.level:  # cannot insert or delete
-        ln, col, src = next_find_re(lines, self_ln, self_col + 4, end_ln, end_col, re_identifier_dotted, lcont=None)  # must be there, self_col+4 is for 'from'
-        end_col = col + len(src)
-
-        return oneinfo('', None, fstloc(ln, col, ln, end_col))
+        return oneinfo('', None, _loc_identifier_dotted(lines, self_ln, self_col + 4, end_ln, end_col, ast.module))  # self_col+4 is for 'from'
 
     ln, col = prev_find(lines, self_ln, self_col, *ast.names[0].f.loc[:2], 'import')
     ln, col, src = prev_frag(lines, self_ln, self_col, ln, col)  # must be there, the module name with any/some/all preceding '.' level indicators
